@@ -501,3 +501,56 @@ impl RecSys {
         self.rec.lock().unwrap_or_else(|e| e.into_inner()).ev.clone()
     }
 }
+
+// ---------------------------------------------------------------------------------------------
+// coroutine stack high-water mark (C01 evidence)
+// ---------------------------------------------------------------------------------------------
+
+/// the read-write mapping (from /proc/self/maps) that contains `addr`, if it looks like the
+/// parser coroutine's stack (a small anonymous mapping, not the main thread's stack)
+pub fn small_rw_mapping_of(addr: usize) -> Option<(usize, usize)> {
+    let maps = std::fs::read_to_string("/proc/self/maps").ok()?;
+    for line in maps.lines() {
+        let mut it = line.split_whitespace();
+        let range = it.next()?;
+        let perms = it.next().unwrap_or("");
+        let mut r = range.split('-');
+        let lo = usize::from_str_radix(r.next()?, 16).ok()?;
+        let hi = usize::from_str_radix(r.next()?, 16).ok()?;
+        if lo <= addr && addr < hi {
+            if perms.starts_with("rw") && hi - lo <= 256 * 1024 && !line.contains("[stack]") && !line.contains("[heap]") {
+                return Some((lo, hi));
+            }
+            return None;
+        }
+    }
+    None
+}
+
+const PAINT: u8 = 0xA5;
+
+/// Paint the dead part of the coroutine stack (below `below`, leaving generator-rs' own words at
+/// the very bottom alone).  Safe only while the coroutine is suspended at a shallower depth than
+/// `below` - which holds for an address sampled inside a listener call.
+pub fn paint_stack(lo: usize, below: usize) {
+    let from = lo + 128;
+    if below <= from + 256 {
+        return;
+    }
+    let to = below - 256;
+    unsafe {
+        std::ptr::write_bytes(from as *mut u8, PAINT, to - from);
+    }
+}
+
+/// bytes of the mapping [lo, hi) that have been touched since `paint_stack` (measured from the top)
+pub fn stack_high_water(lo: usize, hi: usize) -> usize {
+    let from = lo + 128;
+    let mut a = from;
+    unsafe {
+        while a < hi && std::ptr::read_volatile(a as *const u8) == PAINT {
+            a += 1;
+        }
+    }
+    hi - a
+}
